@@ -164,6 +164,8 @@ func txbErrClass(err error) string {
 		return "err:noaddr"
 	case masswallet.ErrInvalidAmount:
 		return "err:amount"
+	case masswallet.ErrInvalidParameter:
+		return "err:param"
 	case masswallet.ErrInvalidAddress, masswallet.ErrInvalidStakingAddress, masswallet.ErrFailedDecodeAddress:
 		return "err:addr"
 	case txscript.ErrFrozenPeriod:
@@ -845,23 +847,26 @@ func (x *txbExec) judge() string {
 		return "driver-failed"
 	}
 	lines := strings.Split(strings.TrimRight(string(outb), "\n"), "\n")
+	seen := map[string]bool{}
 	var bad []string
 	for j := x.judged; j < len(idx); j++ {
-		if idx[j] >= len(lines) {
-			bad = append(bad, fmt.Sprintf("#%d:missing", j+1))
-			continue
+		v := "missing"
+		if idx[j] < len(lines) {
+			v = lines[idx[j]]
 		}
-		v := lines[idx[j]]
 		if t := strings.IndexByte(v, '\t'); t >= 0 {
 			v = v[:t]
 		}
-		if v != "ok" {
-			bad = append(bad, fmt.Sprintf("#%d:%s", j+1, v))
+		v = strings.TrimPrefix(v, "bad:")
+		if v != "ok" && !seen[v] {
+			seen[v] = true
+			bad = append(bad, v)
 		}
 	}
 	x.judged = len(idx)
 	if len(bad) == 0 {
 		return "ok"
 	}
+	sort.Strings(bad)
 	return "bad " + strings.Join(bad, " ")
 }
